@@ -15,7 +15,9 @@ Record cstep := mkCStep {
   cs_reqs : list req;                  (* mutating requests the server received, in order *)
   cs_keys : option (list string);      (* data keys of the stored inventory object afterwards; None = no object *)
   cs_prune : list oid;                 (* the set Merge returned *)
-  cs_get : result (list oid)           (* GetClusterObjs afterwards: what the next run loads *)
+  cs_get : result (list oid);          (* GetClusterObjs afterwards: what the next run loads *)
+  cs_list : result (option (list oid)) (* ListClusterInventoryObjs afterwards: its entry for the inventory
+                                          object (None = no entry); Err also when it lists anything else *)
 }.
 
 (* status policy, the inventory an earlier run left (one key per id, written
@@ -50,6 +52,7 @@ Fixpoint model_client (p : policy) (s : istore) (steps : list cstep) : bool :=
       && okeys_eqb (stored_keys (oc_store r)) (cs_keys c)
       && set_eq_id (oc_prune r) (cs_prune c)
       && res_bag_eqb (client_get (oc_store r)) (cs_get c)
+      && res_eqb (option_eqb bag_eqb) (client_list (oc_store r)) (cs_list c)
       && model_client p (oc_store r) t
   end.
 
@@ -86,10 +89,21 @@ Definition mon_step (pre : result (list oid)) (prekeys : option (list string)) (
            | _, _ => false
            end).
 
+(* listing the inventories reads the same object the next run loads: no object = no entry, an
+   unreadable object is an error of the call (never an empty or partial entry), a readable one
+   is listed with exactly what GetClusterObjs returns *)
+Definition mon_list (c : cstep) : bool :=
+  match cs_keys c, cs_get c, cs_list c with
+  | None, _, Ok None => true
+  | Some _, Ok l, Ok (Some l') => bag_eqb l l'
+  | Some _, Err, Err => true
+  | _, _, _ => false
+  end.
+
 Fixpoint mon_steps_client (pre : result (list oid)) (prekeys : option (list string)) (steps : list cstep) : bool :=
   match steps with
   | [] => true
-  | c :: t => mon_step pre prekeys c && mon_steps_client (cs_get c) (cs_keys c) t
+  | c :: t => mon_step pre prekeys c && mon_list c && mon_steps_client (cs_get c) (cs_keys c) t
   end.
 
 (* before the first operation: no object = the empty inventory; an object is
